@@ -28,6 +28,7 @@ PROFILES = {
     "C10": {"origins": 0.6, "save": 0.15},
     "C11": {"origins": 0.3},
     "C12": {"origins": 0.4, "bad_allot_sum": 0.1, "negative_amount": 0.08},
+    "C20": {"origins": 0.4},
 }
 
 KEYS = {
